@@ -44,7 +44,7 @@ def main(run):
     run.rule = ("R independent GeometricReservoirStorage instances per (k, p, snapshot grid); exact binomial cell tests "
                 "(eps=1e-9 per run, Bonferroni): retention of individual arrivals against p(1-p/k)^(n-t) / (1-p/k)^(n-k), "
                 "acceptance frequency once full (p), replaced slot uniform (1/k, decoded from consecutive get_data() "
-                "snapshots); deterministic: p=1 stores every new observation (also on every scripted path), "
+                "snapshots); EXACT one-step transition law from full reservoirs (k=1..8, p in {default, 0, .5, .7, 1, two drawn from VERIF_SEED}) obtained by enumerating the implementation's own draws (integers exhaustively, float draws by break-point search): entry probability p and p/k per slot to 1e-9; deterministic: p=1 stores every new observation (also on every scripted path), "
                 "acceptance threshold at p-ulp / p+ulp via the scripted generator; evaluations = independent executions; "
                 "non-trivial = distinct (k,p,snapshot,arrival) retention cells with a non-zero count")
     run.assumptions = ["executions independent (fresh objects, generators seeded once per configuration)",
@@ -175,6 +175,57 @@ def main(run):
         run.nontriv(("size-sweep", k, p))
     run.count("cell-tests", ct.done)
     run.notes["max_min_detectable_deviation"] = max(mdd, ct.max_mdd)
+    # ---- exact one-step transition law under the implementation's own draws (no sampling error): from a full reservoir the
+    #      next observation must enter with probability exactly p and replace each slot with probability exactly p/k
+    import copy
+    from ..exactlaw import exact_law, Budget
+    xrnd = random.Random(run.seed + 555)
+    import fractions
+    import numpy as np
+    cases = [(k, p) for k in range(1, 9) for p in (None, 0.5, 1.0, 0.0, 0.7, round(xrnd.uniform(0.01, 0.99), 3), round(xrnd.uniform(0.01, 0.99), 4))]
+    # the same probabilities in other legal numeric forms: int end points, NumPy floats, rationals
+    cases += [(k, p) for k in (1, 2, 5) for p in (1, 0, np.float32(0.75), np.float64(0.3), fractions.Fraction(3, 4))]
+    for ci, (k, p) in enumerate(cases):
+        if ci % nsh != sh:
+            continue
+        pe = 1 / k if p is None else float(p)
+        for warm in (0, 1, 7):
+            random.seed(run.shard_seed + ci)
+            base = GeometricReservoirStorage(size=k, constant_probability=p)
+            for i in range(k + warm):
+                base.update({"t": i})
+            before = [d["t"] for d in base.get_data()[0]]
+
+            def scen():
+                st = copy.deepcopy(base)
+                st.update({"t": 10 ** 6})
+                return tuple(d["t"] for d in st.get_data()[0])
+            try:
+                lawd, runs_x, fsites = exact_law(scen)
+            except Budget:
+                run.count("exact-law-budget-exceeded")
+                continue
+            run.ok(kind="exact-transition-law")
+            run.count("exact-law-executions", runs_x)
+            stay = float(lawd.get(tuple(before), 0))
+            slot_p = []
+            okshape = True
+            for j in range(k):
+                after = list(before)
+                after[j] = 10 ** 6
+                slot_p.append(float(lawd.get(tuple(after), 0)))
+            if abs(sum(float(q) for q in lawd.values()) - 1) > 1e-9 or abs(stay + sum(slot_p) - 1) > 1e-9:
+                okshape = False
+            replay = {"k": k, "p": repr(p), "state": before, "exact_law": {str(o): float(q) for o, q in lawd.items()}}
+            if not okshape:
+                run.violation("replacement-shape", f"k={k} p={pe}: one update from {before} leads to states other than 'unchanged' / "
+                                                   f"'one slot replaced by the new item': {replay['exact_law']}", replay)
+            elif abs(sum(slot_p) - pe) > (1e-6 if type(p).__name__ == "float32" else 1e-9):     # (a float32 p compares in float32)
+                run.violation("acceptance-probability", f"k={k} p={pe} (state after {k + warm} updates): the new observation enters with "
+                                                        f"probability exactly {sum(slot_p):.12g}, not {pe:.12g}", replay)
+            elif any(abs(q - pe / k) > (1e-6 if type(p).__name__ == "float32" else 1e-9) for q in slot_p):
+                run.violation("slot-uniformity", f"k={k} p={pe}: slots are replaced with probabilities {slot_p}, expected {pe / k:.12g} each", replay)
+            run.nontriv(("exact", k, repr(p), warm))
     # ---- deterministic clauses via the scripted generator (shard 0)
     if sh == 0:
         for k in (1, 2, 3):
